@@ -165,6 +165,10 @@ func validateInputTypeCompatibility(
 	if handler.Kind() != reflect.Func {
 		return fmt.Errorf("handler must be a function, %s given", handler.Kind())
 	}
+	if handler.Type().IsVariadic() {
+		// Call passes each argument as one parameter; a variadic handler would need CallSlice.
+		return fmt.Errorf("handler must not be variadic, %s given", handler.Type())
+	}
 	specifiedParams := len(inputs)
 	actualParams := handler.Type().NumIn()
 	if specifiedParams != actualParams {
